@@ -9,6 +9,7 @@
    whole critical section of the mutex. *)
 From Util Require Import Common.Base Common.ListLemmas.
 From Util Require Import Lifo.Lin Lifo.Model Lifo.Proofs Lifo.LLModel Lifo.LLProofs Lifo.Spec Lifo.LLSpec.
+From Util Require Import Lifo.ProofsMon Lifo.ProofsMon2.
 
 (* ---------------- AtomicLIFO ---------------- *)
 
@@ -145,11 +146,43 @@ Theorem c12_linkedlist_model_satisfies_monitors : forall cfg evs,
 Proof. exact ll_model_satisfies_monitors. Qed.
 Print Assumptions c12_linkedlist_model_satisfies_monitors.
 
-(* NOT proved: the analogous statement for Spec.lmon (AtomicLIFO).  c12_lin_search_correct shows that
-   clause 1 is exactly linearizability of the recorded history; what is missing is the simulation between
-   the monitor's operation table and the model (the recorded operations of a model run, ordered by their
-   linearization points, form a lin_ok witness) plus counting arguments for clauses 2-4; the monitors of the lifo model are validated empirically instead (no report on any
-   history of the unchanged code or of behaviour-preserving refactorings; every seeded defect reported). *)
+(* the same for AtomicLIFO: the monitors Spec.lmon (clause 1 = the search over linearization orders,
+   clause 2 = no Pop returns zero although the stack cannot have been empty, clause 3 = nothing lost at a
+   drain / in a free-running stream, clause 4 = nothing popped that was not pushed) accept every
+   observation of the schedule-level step function Spec.hstep, for every config (scheduled histories and
+   free-running streams) and every event list, no bound.  Proof (ProofsMon.v, ProofsMon2.v): the
+   monitor's operation table always has a WITNESS -- its completed operations in response order (= the
+   order of their linearization points in the model, because a scheduled step runs an actor from its
+   linearization point on to its return) are a legal sequential LIFO execution from the empty stack that
+   ends in the abstract stack abs of the model state and respects the recorded real-time order *)
+Theorem c12_lifo_model_satisfies_monitors : forall cfg evs,
+  monitor lmon 0 (lminit cfg) [] evs (run_obs hstep (hinit cfg) evs) = [].
+Proof. exact lifo_model_satisfies_monitors. Qed.
+Print Assumptions c12_lifo_model_satisfies_monitors.
+
+(* the per-event simulation behind it: R relates monitor state and model state *)
+Theorem c12_lifo_mon_step : forall m h e h' o, R m h -> hstep h e = Some (h', o) ->
+  exists m', lmon m e o = (m', []) /\ R m' h'.
+Proof. exact mon_step. Qed.
+Print Assumptions c12_lifo_mon_step.
+
+(* a witness alone (no model in sight) silences every clause: this is the reading of the clauses *)
+Theorem c12_lifo_witness_silences_clauses : forall all L stk, Wit all L stk ->
+  linearizable_lifo all = true /\
+  msub (popped_vals all) (pushed_invoked all) = true /\
+  (stk = [] -> mdiff (pushed_completed all) (popped_vals all) = 0%nat) /\
+  (forall o, (forall j, mo_push o = false -> mo_res o = Some (j, 0%N) ->
+                        stk = [] /\ forall p, In p all -> mo_inv p < j) ->
+             zero_pop_bad all o = false).
+Proof. exact witness_silences_clauses. Qed.
+Print Assumptions c12_lifo_witness_silences_clauses.
+
+(* hence the whole checker (replay + monitors) accepts every history the lifo model itself produces *)
+Theorem c12_lifo_model_run_check_clean : forall cfg evs,
+  length (run_obs hstep (hinit cfg) evs) = length evs ->
+  run_check_lifo cfg evs (run_obs hstep (hinit cfg) evs) = [].
+Proof. exact lifo_model_run_check_clean. Qed.
+Print Assumptions c12_lifo_model_run_check_clean.
 
 (* ---------------- examples (non-vacuity) ---------------- *)
 Open Scope N_scope.
@@ -195,4 +228,14 @@ Example c12_example_linkedlist :
   nth_error (lacts s) 1 = Some (LRetp (5, true)) /\ nth_error (lacts s) 2 = Some (LRetp (0, false)) /\
   nth_error (lacts s) 4 = Some (LRetp (6, true)) /\ nth_error (lacts s) 6 = Some (LRetp (6, true)) /\
   labs s = [7].
+Proof. vm_compute. repeat split; reflexivity. Qed.
+
+(* the monitored lifo model on the ABA-shaped schedule: 15 accepted events (no BadEvent), the monitors
+   stay silent; the observation after event 13 shows the retried Pop returning 2, the drain finds nothing *)
+Example c12_example_lifo_monitored_run :
+  let evs := [[1;1]; [3;0]; [3;0]; [2]; [3;1]; [2]; [3;2]; [3;2]; [1;2]; [3;3]; [3;3]; [3;1]; [3;1]; [3;1]; [4]] in
+  length (run_obs hstep (hinit []) evs) = length evs /\
+  run_check_lifo [] evs (run_obs hstep (hinit []) evs) = [] /\
+  nth 13 (run_obs hstep (hinit []) evs) [] = [5; 12; 11; 5] /\
+  nth 14 (run_obs hstep (hinit []) evs) [] = [1].
 Proof. vm_compute. repeat split; reflexivity. Qed.
